@@ -709,13 +709,21 @@ impl U {
     /// Make `addr` dispatch to the native contract `c` once an instance is created there, without
     /// leaving any ledger entry behind: register it (running its constructor with arguments that
     /// are known to be valid) and then put the ledger back.
-    pub fn prime<C: Register, A: ConstructorArgs>(&mut self, addr: &Address, c: C, valid_args: A) {
+    /// Returns false when the contract's constructor refused the (valid) arguments: the test host
+    /// panics in that case, which is caught here.
+    pub fn prime<C: Register, A: ConstructorArgs>(&mut self, addr: &Address, c: C, valid_args: A) -> bool {
         let ck = self.checkpoint();
         self.primed.push(sc_addr(addr));
         self.env.mock_all_auths_allowing_non_root_auth();
-        self.env.register_at(addr, c, valid_args);
+        let env = self.env.clone();
+        let a = addr.clone();
+        let ok = std::panic::catch_unwind(std::panic::AssertUnwindSafe(move || {
+            env.register_at(&a, c, valid_args);
+        }))
+        .is_ok();
         self.env.set_auths(&[]);
         self.restore(&ck);
+        ok
     }
 
     /// Is there a contract instance at `addr`?
